@@ -50,3 +50,86 @@ package stack
 //@   ensures result == len(s.items) && result >= 0
 
 //@ guards stack.Stack.mu : items, elems(items)
+
+// ---------------------------------------------------------------- linked stack (C06, C01, C02)
+//
+// The stack holds s.n elements; for s.n > 0 they are the values of the s.n nodes of s.list, bottom first. For
+// s.n == 0 the list holds one leftover node that no operation looks at.
+
+//@ pred lsInv(s *LStack, seq map[int]*list.DoubleNode, idx map[*list.DoubleNode]int, cnt int) := s.list != nil && s.n >= 0 && (s.n > 0 ==> cnt == s.n) && (s.n == 0 ==> cnt == 1) && dlInv(s.list, seq, idx, cnt)
+
+//@ func stack.NewLinked
+//@   property C06 C01
+//@   ghost nseq map[int]*list.DoubleNode
+//@   ghost nidx map[*list.DoubleNode]int
+//@   ghost-at InitDList#1: nseq = lambda i int :: &$ret.DoubleNode
+//@   ghost-at InitDList#1: nidx = lambda x *list.DoubleNode :: 0
+//@   ensures result != nil && fresh(result) && result.n == 1 && lsInv(result, nseq, nidx, 1) && nseq[0].Value == t
+
+//@ func (*stack.LStack).Push
+//@   property C06 C01 C02
+//@   lock s.mu : none
+//@   ghost-param seq map[int]*list.DoubleNode
+//@   ghost-param idx map[*list.DoubleNode]int
+//@   ghost-param cnt int
+//@   ghost nseq map[int]*list.DoubleNode = seq
+//@   ghost nidx map[*list.DoubleNode]int = idx
+//@   requires lsInv(s, seq, idx, cnt)
+//@   modifies s.n, s.list, all list.DoubleNode.Value, all list.DoubleNode.next, all list.DoubleNode.prev
+//@   ghost-at InitDList#1: nseq = lambda i int :: &$ret.DoubleNode
+//@   ghost-at InitDList#1: nidx = lambda x *list.DoubleNode :: 0
+//@   ensures s.n == old(s.n) + 1 && lsInv(s, nseq, nidx, s.n) && nseq[s.n - 1].Value == item
+//@   ensures forall i int :: { nseq[i] } 0 <= i && i < old(s.n) ==> nseq[i].Value == old(seq[i].Value)
+//@   call Append#1 ghost seq = seq; idx = idx; cnt = cnt
+//@   release-views seq = nseq; idx = nidx; cnt = s.n
+
+//@ func (*stack.LStack).Pop
+//@   property C06 C01 C02
+//@   lock s.mu : none
+//@   ghost-param seq map[int]*list.DoubleNode
+//@   ghost-param idx map[*list.DoubleNode]int
+//@   ghost-param cnt int
+//@   requires lsInv(s, seq, idx, cnt)
+//@   modifies s.n, all list.DoubleNode.next
+//@   ensures old(s.n) == 0 ==> item == zero && s.n == 0 && lsInv(s, seq, idx, cnt)
+//@   ensures old(s.n) > 0 ==> s.n == old(s.n) - 1 && lsInv(s, seq, idx, (s.n == 0 ? 1 : s.n)) && dlVals(seq, cnt)
+//@   ensures old(s.n) > 0 ==> item == old(seq[s.n - 1].Value)
+//@   call Pop#1 ghost seq = seq; idx = idx; cnt = cnt
+//@   release-views cnt = (old(s.n) > 1 ? s.n : 1)
+
+//@ func (*stack.LStack).Peek
+//@   property C06 C01 C02
+//@   lock s.mu : none
+//@   ghost-param seq map[int]*list.DoubleNode
+//@   ghost-param idx map[*list.DoubleNode]int
+//@   ghost-param cnt int
+//@   requires lsInv(s, seq, idx, cnt)
+//@   modifies all list.DoubleNode.Value, all list.DoubleNode.next, all list.DoubleNode.prev
+//@   ensures s.n == 0 ==> result == zero
+//@   ensures s.n > 0 ==> result == seq[s.n - 1].Value
+//@   ensures lsInv(s, seq, idx, cnt) && s.n == old(s.n) && dlVals(seq, cnt)
+//@   call Last#1 ghost seq = seq; idx = idx; cnt = cnt
+
+//@ func (*stack.LStack).Search
+//@   property C06 C01 C02
+//@   lock s.mu : none
+//@   ghost-param seq map[int]*list.DoubleNode
+//@   ghost-param idx map[*list.DoubleNode]int
+//@   ghost-param cnt int
+//@   requires lsInv(s, seq, idx, cnt)
+//@   modifies all list.DoubleNode.Value, all list.DoubleNode.next, all list.DoubleNode.prev
+//@   ensures result <==> (exists i int :: 0 <= i && i < s.n && seq[i].Value == item)
+//@   ensures lsInv(s, seq, idx, cnt) && s.n == old(s.n) && dlVals(seq, cnt)
+//@   call Find#1 ghost seq = seq; idx = idx; cnt = cnt
+
+//@ func (*stack.LStack).Size
+//@   property C06 C01 C02
+//@   lock s.mu : none
+//@   ghost-param seq map[int]*list.DoubleNode
+//@   ghost-param idx map[*list.DoubleNode]int
+//@   ghost-param cnt int
+//@   requires lsInv(s, seq, idx, cnt)
+//@   ensures result == s.n && result >= 0
+
+//@ guards stack.LStack.mu : list, n, all list.DList, all list.DoubleNode
+//@ lockinv stack.LStack : lsInv(self, seq, idx, cnt)
